@@ -2,9 +2,7 @@ package c14
 
 import (
 	"fmt"
-	"strings"
 
-	"github.com/nspcc-dev/neo-go/pkg/compiler"
 	"github.com/nspcc-dev/neo-go/pkg/smartcontract/manifest"
 )
 
@@ -298,9 +296,46 @@ func Main(a int) int {
 `, Fn: "Main", Args: []Arg{{T: "int", I: 0}}, Res: "int", GoWant: "i:1"})
 }
 
+func init() {
+	findings = append(findings, finding{Key: kAppendArgs,
+		What: "append(s, a, b): the elements are appended one by one while the arguments are evaluated, so a later argument that reads s (len(s), s[i]) sees the elements appended before it (codegen.go convertBuiltin append); Go evaluates all arguments first",
+		Src: `package foo
+
+func Main(a int) int {
+	s := []int{1, 2}
+	s = append(s, 7, len(s))
+	return s[3]
+}
+`, Fn: "Main", Args: []Arg{{T: "int", I: 0}}, Res: "int", GoWant: "i:2"})
+}
+
+func init() {
+	findings = append(findings, finding{Key: kEarlyDefault,
+		What: "switch: a default clause that is not the last one and ends with fallthrough makes the compiler panic (index out of range, codegen.go:1016: startLabels[i+1] after the default clause was moved to the end)",
+		Src: `package foo
+
+func Main(a int) int {
+	r := 0
+	switch a {
+	case 1:
+		r = 1
+	default:
+		r = 2
+		fallthrough
+	case 3:
+		r += 10
+	}
+	return r
+}
+`, Fn: "Main", Args: []Arg{{T: "int", I: 7}}, Res: "int", GoWant: "i:12"})
+}
+
 // runFinding executes the neo-go side of a reproduction and renders the outcome in the notation of the check.
 func runFinding(f finding) string {
-	nf, di, err := compiler.CompileWithOptions("finding.go", strings.NewReader(f.Src), nil)
+	nf, di, err, crash := compileProg("finding.go", f.Src)
+	if crash != "" {
+		return "COMPILER-PANIC " + crash
+	}
 	if err != nil {
 		return "COMPILE-ERROR " + err.Error()
 	}
